@@ -264,7 +264,7 @@ def _observe(b, path: str, with_as_bits: bool = True):
 
 def _observe_frame(h):
     """the same observables on a HyteraIPSC object (result of HyteraIPSC.from_kaitai / from_ipsc_bytes)"""
-    return {"payload_bits": bytes(h.payload).hex(), "timeslot": {"Timeslot_1": 1, "Timeslot_2": 2}.get(h.timeslot.name), "sequence_no": h.sequence_number,
+    return {"payload_bits": bytes(h.payload).hex(), "timeslot": {0x1111: 1, 0x2222: 2}.get(getattr(h.timeslot, "value", h.timeslot)), "sequence_no": h.sequence_number,
             "colour_code": h.color_code, "frame_source_id": h.source_radio_id, "frame_destination_id": h.destination_radio_id}
 
 
